@@ -879,6 +879,10 @@ class Interp:
             return ("slice", a[0], a[1], a[2])
         if name == "getattr":
             return ("app", "getattr", tuple(args))
+        if name == "bool":
+            return self.truth(args[0]) if args else FALSE
+        if name in ("round", "sorted", "reversed", "divmod", "pow", "type", "repr", "enumerate", "dict", "set", "map", "filter"):
+            return ("app", "py" + name, tuple(args))
         raise Unsupported(f"builtin {name}")
 
     def call_bound(self, recv, name, args, kw, node, fr):
@@ -1376,6 +1380,8 @@ BUILTINS = {
     "float", "int", "len", "min", "max", "range", "tuple", "list", "zip", "isinstance", "hasattr",
     "any", "all", "sum", "abs", "str", "print", "slice", "getattr", "super", "dict", "set",
     "ValueError", "TypeError", "NotImplementedError", "FileNotFoundError", "enumerate",
+    "bool", "object", "round", "sorted", "reversed", "map", "filter", "divmod", "pow", "type", "id", "repr",
+    "Exception", "RuntimeError", "KeyError", "IndexError", "AttributeError", "AssertionError", "OverflowError",
 }
 
 
